@@ -19,7 +19,7 @@ import threading
 
 PROPERTY = 'C04'
 LEVEL = 'exploration'
-RULE = ('(prefix P, concurrent set S) drawn from 7 prefixes (incl. a pool of three queued trials) x all pairs (and sampled triples) of 12 RPC kinds aimed at '
+RULE = ('(prefix P, concurrent set S) drawn from 7 prefixes (incl. a pool of three queued trials) x all pairs (and sampled triples) of 12 mutating RPC kinds, plus every multi-step writer paired with each of 4 pure reads (ListTrials, GetTrial, GetStudy, GetOperation; on SQLite the connection then also yields before every statement, commit and rollback), aimed at '
         'the same study / trial / display name; per (P,S): every schedule with <=2 (quick) / <=3 (thorough) pre-emptions at '
         'datastore-call and service-lock granularity (capped) + random schedules; RAM and in-memory SQLite. A schedule is '
         'non-trivial when a switch happened between the first and last datastore call of some thread; distinct = hash of '
@@ -94,7 +94,16 @@ MENU = {
     'CreateStudyB': {'op': 'CreateStudy', 'owner': 'o', 'display': 's', 'algo': 'VVSTUB',
                      'metrics': [['obj', 'MINIMIZE']]},
     'EarlyStop1': {'op': 'CheckTrialEarlyStoppingState', 'trial': T(1)},
+    # pure reads: their responses are part of the serialisability claim, and a read must
+    # never disturb a concurrent write
+    'ListTrials': {'op': 'ListTrials', 'study': STUDY},
+    'GetTrial1': {'op': 'GetTrial', 'trial': T(1)},
+    'GetStudy': {'op': 'GetStudy', 'study': STUDY},
+    'GetOp_w1': {'op': 'GetOperation', 'name': 'owners/o/operations/suggestion/s/w1/1'},
 }
+READS = ('ListTrials', 'GetTrial1', 'GetStudy', 'GetOp_w1')
+READ_PARTNERS = ('Suggest_w1', 'Suggest_w2', 'Complete1', 'Measure1', 'Stop1', 'Delete1', 'DeleteStudy', 'MetaStudy',
+                 'MetaTrial1', 'CreateTrial', 'SetInactive')
 
 
 def all_combos():
@@ -110,10 +119,15 @@ def all_combos():
       pool = ['Suggest_w1', 'Suggest_w2', 'Delete1', 'Delete2', 'Delete3', 'CreateTrial', 'MetaTrial2', 'SetInactive', 'DeleteStudy']
     else:
       pool = [n for n in names if n != 'Delete3']
+    pool = [n for n in pool if n not in READS]
     for a, b in itertools.combinations_with_replacement(pool, 2):
       if a == b and a not in ('Suggest_w1', 'CreateTrial', 'CreateStudy', 'MetaStudy', 'Complete1'):
         continue
       combos.append((p, (a, b)))
+  for p in ('one_active', 'req_and_active', 'two_workers'):
+    for w in READ_PARTNERS:
+      for r in READS:
+        combos.append((p, (w, r)))
   return combos
 
 
@@ -202,6 +216,10 @@ def run_controlled(backend, pname, names, prefix_choices, rng=None):
   before_ids = trial_ids(sv)
   sch = sched_lib.Scheduler(prefix_choices, rng)
   fine = sched_lib.install(sv, sch)
+  if any(n in READS for n in names):
+    # with a pure read in the set, the SQL connection also yields before every statement /
+    # commit / rollback (a lock-free read may run between a write and its COMMIT)
+    sched_lib.install_statement_yields(sv, sch)
   # yield points: with a scheduler-visible datastore lock every acquisition of it
   # yields (finer than, and including, "entry of every datastore method")
   sv.datastore._yield = None if fine else sch.yield_point
@@ -521,12 +539,14 @@ def stress(ctx, index, backend, n_threads, ops_per_thread):
   errors = []
   seeds = [rng.getrandbits(32) for _ in range(n_threads)]
   progress = [0]
+  reads = [0]
 
   def worker(w):
     import random
     r = random.Random(seeds[w])
     client = f'w{w}'
     mine = []
+    last_op = None
     for j in range(ops_per_thread):
       x = r.random()
       try:
@@ -536,7 +556,25 @@ def stress(ctx, index, backend, n_threads, ops_per_thread):
             mine = [t['id'] for t in resp['trials']]
           elif ocls != 'OK':
             errors.append(('SuggestTrials', ocls, resp))
-        elif x < 0.55:
+          if ocls == 'OK':
+            last_op = resp['name']
+        elif x < 0.42:
+          # pure reads racing the writers (operation polls, listings): a read must never
+          # disturb somebody else's write
+          which = r.choice(['GetOperation', 'ListTrials', 'GetStudy', 'GetTrial'])
+          if which == 'GetOperation' and last_op:
+            ocls, resp, _ = S.call_servicer(sv, {'op': 'GetOperation', 'name': last_op})
+          elif which == 'ListTrials':
+            ocls, resp, _ = S.call_servicer(sv, {'op': 'ListTrials', 'study': STUDY})
+          elif which == 'GetTrial':
+            ocls, resp, _ = S.call_servicer(sv, {'op': 'GetTrial', 'trial': T(mine[0])})
+          else:
+            ocls, resp, _ = S.call_servicer(sv, {'op': 'GetStudy', 'study': STUDY})
+          if ocls != 'OK':
+            errors.append((which, ocls, resp))
+          with lock:
+            reads[0] += 1
+        elif x < 0.6:
           uid = f'{w}-{j}'
           tid = mine[0]
           ocls, resp, _ = S.call_servicer(sv, {'op': 'AddTrialMeasurement', 'trial': T(tid),
@@ -583,6 +621,7 @@ def stress(ctx, index, backend, n_threads, ops_per_thread):
   case = {'stress': True, 'backend': backend, 'index': index, 'threads': n_threads, 'ops': ops_per_thread}
   ctx.count('stress_runs')
   ctx.count('stress_operations', progress[0])
+  ctx.count('stress_reads_racing_writes', reads[0])
   if stuck:
     ctx.violation('stress:no-client-makes-progress', 'no client thread completed an operation for 180 s while '
                   f'{sum(t.is_alive() for t in threads)} threads were still inside calls (deadlock)', case)
@@ -591,7 +630,12 @@ def stress(ctx, index, backend, n_threads, ops_per_thread):
     ctx.note('stress run still progressing after 900 s (slow machine): abandoned without verdict')
     ctx.count('stress_runs_abandoned_slow')
     return
-  snap = S.snapshot(sv, ['o'])['o'][STUDY]
+  whole = S.snapshot(sv, ['o'])['o']
+  if not isinstance(whole, dict) or STUDY not in whole or not isinstance(whole[STUDY]['trials'], list):
+    ctx.violation('stress:final-state-unreadable',
+                  f'after the concurrent run the study cannot be read back: {str(whole)[:300]}', case)
+    return
+  snap = whole[STUDY]
   trials = {t['id']: t for t in snap['trials']}
   ids = [t['id'] for t in snap['trials']]
   if len(set(ids)) != len(ids):
@@ -645,8 +689,10 @@ def run_shard(ctx):
     idx = ctx.shard * 100 + k
     stress(ctx, idx, ['ram', 'sqlmem'][(ctx.shard + k) % 2], n_threads=8 if quick else 12,
            ops_per_thread=60 if quick else 150)
-  rot = (ctx.seed * 37) % max(1, len(items))
-  items = items[rot:] + items[:rot]
+  # a seed-dependent shuffle: a run cut short by its time budget covers every kind of
+  # combination (prefixes, backends, reads) proportionally, and other seeds cover the rest
+  import random as _random
+  _random.Random(ctx.seed * 1000003 + 7).shuffle(items)
   done = 0
   for i, (backend, pname, names) in enumerate(items):
     if not ctx.mine(i):
